@@ -334,9 +334,44 @@ func ruleResetComplete(p *Program, r *Report, rule string, list []stateType, min
 		}
 		tname := n.Obj().Name()
 		reset := findReset(p, n)
+		pre := "" // path of the object inside the receiver of the Reset that is judged
 		if reset == nil {
-			r.Undecided(rule, tname+"|Reset", p.Pos(n.Obj().Pos()), "type has a Reset/reset method", "not found")
+			// a stateful type without a reset of its own that lives by value in exactly one other object is
+			// re-initialised by that owner's Reset, written out in place
+			var owners []*ssa.Function
+			for _, o := range p.AllNamed() {
+				ost, ok := o.Underlying().(*types.Struct)
+				if !ok || o == n {
+					continue
+				}
+				for i := 0; i < ost.NumFields(); i++ {
+					if types.Identical(ost.Field(i).Type(), n) {
+						if or := findReset(p, o); or != nil {
+							owners = append(owners, or)
+							pre = "." + ost.Field(i).Name()
+						}
+					}
+				}
+			}
+			if len(owners) == 1 {
+				reset = owners[0]
+			}
+		}
+		if reset == nil {
+			r.Undecided(rule, tname+"|Reset", p.Pos(n.Obj().Pos()), "type has a Reset/reset method, or lives by value in exactly one object that has", "not found")
 			continue
+		}
+		inObj := func(sel string) (string, bool) {
+			if pre == "" {
+				return sel, true
+			}
+			if sel == pre {
+				return "", true
+			}
+			if strings.HasPrefix(sel, pre) && (sel[len(pre)] == '.' || sel[len(pre)] == '[') {
+				return sel[len(pre):], true
+			}
+			return "", false
 		}
 		// operations: every repository function with a parameter of type *T/T, except Reset and its private helpers
 		opsW := map[string][]string{} // selector -> writers
@@ -378,6 +413,10 @@ func ruleResetComplete(p *Program, r *Report, rule string, list []stateType, min
 					if root != recv {
 						return false
 					}
+					var in bool
+					if sel, in = inObj(sel); !in {
+						return false
+					}
 					sel = normSel(tname, sel)
 					if covers(sel, s) {
 						return true
@@ -417,6 +456,10 @@ func ruleResetComplete(p *Program, r *Report, rule string, list []stateType, min
 							}
 							root, sel := accessPath(arg)
 							if root != recv {
+								continue
+							}
+							var in bool
+							if sel, in = inObj(sel); !in {
 								continue
 							}
 							if _, isI := arg.Type().Underlying().(*types.Interface); isI {
@@ -473,7 +516,7 @@ func ruleResetComplete(p *Program, r *Report, rule string, list []stateType, min
 					return true
 				}
 				for _, pair := range [][2]ssa.Value{{f.X, f.Y}, {f.Y, f.X}} {
-					if root, sel, ok := fieldLoad(pair[0]); ok && root == recv && sel == "."+field && isNil(pair[1]) && s != "."+field {
+					if root, sel, ok := fieldLoad(pair[0]); ok && root == recv && sel == pre+"."+field && isNil(pair[1]) && s != "."+field {
 						return false
 					}
 				}
